@@ -131,6 +131,14 @@ def merge_and_report(verif, prop, tier, seed, spec, outpath, harness_rc, wall_s,
             json.dump(ev, f, indent=1, sort_keys=True)
             f.write("\n")
         os.rename(tmp, os.path.join(verif, "evidence", "%s.json" % prop))
+        # a copy per tier (evidence/<id>.json always describes the last run, whichever tier that was)
+        try:
+            os.makedirs(os.path.join(verif, "evidence", "tiers"), exist_ok=True)
+            with open(os.path.join(verif, "evidence", "tiers", "%s.%s.json" % (prop, tier)), "w") as f:
+                json.dump(ev, f, indent=1, sort_keys=True)
+                f.write("\n")
+        except OSError:
+            pass
     ev_line = "property=%s tier=%s evaluations=%s states=%s transitions=%s exhaustive=%s new=%d known=%d wall=%.1fs" % (
         prop, tier, cnt.get("evaluations"), cnt.get("states", len(sets.get("states", ())) or None),
         cnt.get("transitions"), exhaustive, len(new), len(known), wall_s)
